@@ -368,6 +368,7 @@ package sod
 //@ ensures [C02 iou.values] imp(err == nil, forallk(f, string, imp(has(in.Fields, f), in.Fields[f].objectIds[id].Value == norm(proj(o.content, f)))))
 //@ ensures [C02 C20 iou.others] imp(err == nil, forallk(f, string, imp(has(in.Fields, f), forallk(k, uint64, imp(k != id, in.Fields[f].objectIds[k] == old(in.Fields[f].objectIds[k]))))))
 //@ ensures [C03 iou.wf] imp(err == nil, wfIndex(in))
+//@ ensures [C20 iou.elems] elemsFramed(in)
 //@ ensures [C04 iou.version] in.ver == old(in.ver) + ite(err == nil, 1, 0) && in.otype == old(in.otype)
 //@ ensures [C07 iou.footprint] in.base == old(in.base) && preservedBelow(in.base, objIndex.i, objIndex.ver, MapDom[string,uint64], MapVal[string,uint64], MapCard[string,uint64], MapDom[uint64,string], MapVal[uint64,string], MapCard[uint64,string], fieldIndex.Index, fieldIndex.pos, MapDom[uint64,*indexedField], MapVal[uint64,*indexedField], MapCard[uint64,*indexedField], Elem[*indexedField])
 //@ atexit in.ver := ite(err == nil, old(in.ver) + 1, old(in.ver))
@@ -380,6 +381,8 @@ package sod
 //@ loop 1 invariant [visited-value] forallk(f, string, imp(has(in.Fields, f) && visited(f), in.Fields[f].objectIds[id].Value == norm(proj(o.content, f))))
 //@ loop 1 invariant [others] forallk(f, string, imp(has(in.Fields, f), forallk(k, uint64, imp(k != id, in.Fields[f].objectIds[k] == old(in.Fields[f].objectIds[k])))))
 //@ loop 1 invariant [sep] sepFields(in)
+//@ loop 1 invariant [unvisited-same] forallk(f, string, imp(has(in.Fields, f) && !visited(f), in.Fields[f].Index == old(in.Fields[f].Index)))
+//@ loop 1 invariant [elems] elemsFramed(in)
 //@ loop 2 invariant [base] baseOK(in)
 //@ loop 2 invariant [footprint] preservedBelow(in.base, fieldIndex.Index, fieldIndex.pos, MapDom[uint64,*indexedField], MapVal[uint64,*indexedField], MapCard[uint64,*indexedField], Elem[*indexedField])
 //@ loop 2 invariant [frame-maps] preserved(MapDom[string,*fieldIndex], MapVal[string,*fieldIndex], fieldIndex.objectIds, fieldIndex.nameSplit, fieldIndex.Constraints)
@@ -390,6 +393,8 @@ package sod
 //@ loop 2 invariant [visited-value] forallk(f, string, imp(has(in.Fields, f) && visited(f), in.Fields[f].objectIds[id].Value == norm(proj(o.content, f))))
 //@ loop 2 invariant [others] forallk(f, string, imp(has(in.Fields, f), forallk(k, uint64, imp(k != id, in.Fields[f].objectIds[k] == old(in.Fields[f].objectIds[k])))))
 //@ loop 2 invariant [sep] sepFields(in)
+//@ loop 2 invariant [unvisited-same] forallk(f, string, imp(has(in.Fields, f) && !visited(f), in.Fields[f].Index == old(in.Fields[f].Index)))
+//@ loop 2 invariant [elems] elemsFramed(in)
 //@ modifies objIndex.i@in, objIndex.ver@in, MapDom[string,uint64]@in.uuids, MapVal[string,uint64]@in.uuids, MapCard[string,uint64]@in.uuids, MapDom[uint64,string]@in.ObjectIds, MapVal[uint64,string]@in.ObjectIds, MapCard[uint64,string]@in.ObjectIds, fieldIndex.Index, fieldIndex.pos, MapDom[uint64,*indexedField], MapVal[uint64,*indexedField], MapCard[uint64,*indexedField], Elem[*indexedField]
 //@ allocates indexedField.Value, indexedField.ObjectId, Elem[interface{}]
 //@ allocates Constraints.Index, Constraints.Lower, Constraints.Unique, Constraints.Upper
@@ -405,6 +410,7 @@ package sod
 //@ ensures [C02 dbu.fields-same] in.Fields == old(in.Fields) && in.uuids == old(in.uuids) && in.ObjectIds == old(in.ObjectIds) && forallk(f, string, has(in.Fields, f) == old(has(in.Fields, f)) && in.Fields[f] == old(in.Fields[f]))
 //@ ensures [C02 C20 dbu.others] forallk(f, string, imp(has(in.Fields, f), forallk(k, uint64, imp(!(known && k == id), in.Fields[f].objectIds[k] == old(in.Fields[f].objectIds[k])))))
 //@ ensures [C03 dbu.wf] wfIndex(in)
+//@ ensures [C20 dbu.elems] elemsFramed(in)
 //@ ensures [C04 dbu.version] in.ver == old(in.ver) + ite(known, 1, 0) && in.otype == old(in.otype)
 //@ ensures [C07 dbu.footprint] in.base == old(in.base) && preservedBelow(in.base, objIndex.ver, MapDom[string,uint64], MapVal[string,uint64], MapCard[string,uint64], MapDom[uint64,string], MapVal[uint64,string], MapCard[uint64,string], fieldIndex.Index, fieldIndex.pos, MapDom[uint64,*indexedField], MapVal[uint64,*indexedField], MapCard[uint64,*indexedField], Elem[*indexedField])
 //@ atexit in.ver := ite(known, old(in.ver) + 1, old(in.ver))
@@ -416,6 +422,8 @@ package sod
 //@ loop 1 invariant [ids-unvisited] forallk(f, string, imp(has(in.Fields, f) && !visited(f), forallk(k, uint64, has(in.Fields[f].objectIds, k) == has(in.ObjectIds, k))))
 //@ loop 1 invariant [others] forallk(f, string, imp(has(in.Fields, f), forallk(k, uint64, imp(k != id, in.Fields[f].objectIds[k] == old(in.Fields[f].objectIds[k])))))
 //@ loop 1 invariant [sep] sepFields(in)
+//@ loop 1 invariant [unvisited-same] forallk(f, string, imp(has(in.Fields, f) && !visited(f), in.Fields[f].Index == old(in.Fields[f].Index)))
+//@ loop 1 invariant [elems] elemsFramed(in)
 //@ modifies objIndex.ver@in, MapDom[string,uint64]@in.uuids, MapVal[string,uint64]@in.uuids, MapCard[string,uint64]@in.uuids, MapDom[uint64,string]@in.ObjectIds, MapVal[uint64,string]@in.ObjectIds, MapCard[uint64,string]@in.ObjectIds, fieldIndex.Index, fieldIndex.pos, MapDom[uint64,*indexedField], MapVal[uint64,*indexedField], MapCard[uint64,*indexedField], Elem[*indexedField]
 
 //@ func (*fieldIndex).SearchByRegex
@@ -672,6 +680,7 @@ package sod
 //@ ensures [C10 load.flusher] imp((err == nil || errIs(err, ErrIndexCorrupted)) && asyncOn(s), s.AsyncWrites.routineStarted)
 //@ ensures [load.others] db.schemas == old(db.schemas) && forallk(t, string, imp(t != stypeOf(dyntype(of)), has(db.schemas, t) == old(has(db.schemas, t)) && db.schemas[t] == old(db.schemas[t])))
 //@ ensures [load.wf] wfDBbase(db)
+//@ ensures [C20 load.base] imp(err == nil || errIs(err, ErrIndexCorrupted), s.ObjectIndex.base >= old(allocmark()))
 //@ ensures [load.wf-colls] imp(old(collsOK(db)), collsOK(db))
 //@ ensures [C17 load.readonly] FSk == old(FSk) && FSc == old(FSc)
 //@ modifies MapDom[string,*Schema]@db.schemas, MapVal[string,*Schema]@db.schemas, MapCard[string,*Schema]@db.schemas
@@ -698,6 +707,7 @@ package sod
 //@ ensures [C01 schema.others] db.schemas == old(db.schemas) && forallk(t, string, imp(t != stypeOf(dyntype(of)), has(db.schemas, t) == old(has(db.schemas, t)) && db.schemas[t] == old(db.schemas[t])))
 //@ ensures [C01 schema.keeps] imp(old(has(db.schemas, stypeOf(dyntype(of)))), has(db.schemas, stypeOf(dyntype(of))) && db.schemas[stypeOf(dyntype(of))] == old(db.schemas[stypeOf(dyntype(of))]))
 //@ ensures [C01 schema.wf] wfDBbase(db)
+//@ ensures [C20 schema.base] imp(!old(has(db.schemas, stypeOf(dyntype(of)))) && has(db.schemas, stypeOf(dyntype(of))), db.schemas[stypeOf(dyntype(of))].ObjectIndex.base >= old(allocmark()))
 //@ ensures [C01 schema.wf-colls] imp(old(collsOK(db)), collsOK(db))
 //@ ensures [C17 schema.readonly] FSk == old(FSk) && FSc == old(FSc)
 //@ modifies MapDom[string,*Schema]@db.schemas, MapVal[string,*Schema]@db.schemas, MapCard[string,*Schema]@db.schemas, Async.routineStarted
@@ -760,6 +770,7 @@ package sod
 //@ ensures [C02 iou.values] imp(result == nil, forallk(f, string, imp(has(s.ObjectIndex.Fields, f), s.ObjectIndex.Fields[f].objectIds[id].Value == norm(proj(o.content, f)))))
 //@ ensures [C02 C20 iou.others] imp(result == nil, forallk(f, string, imp(has(s.ObjectIndex.Fields, f), forallk(k, uint64, imp(k != id, s.ObjectIndex.Fields[f].objectIds[k] == old(s.ObjectIndex.Fields[f].objectIds[k]))))))
 //@ ensures [C03 iou.wf] imp(result == nil, wfIndex(s.ObjectIndex))
+//@ ensures [C20 iou.elems] elemsFramed(s.ObjectIndex)
 //@ ensures [C04 iou.version] s.ObjectIndex.ver == old(s.ObjectIndex.ver) + ite(result == nil, 1, 0) && s.ObjectIndex.otype == old(s.ObjectIndex.otype)
 //@ ensures [C07 iou.footprint] s.ObjectIndex.base == old(s.ObjectIndex.base) && preservedBelow(s.ObjectIndex.base, objIndex.i, objIndex.ver, MapDom[string,uint64], MapVal[string,uint64], MapCard[string,uint64], MapDom[uint64,string], MapVal[uint64,string], MapCard[uint64,string], fieldIndex.Index, fieldIndex.pos, MapDom[uint64,*indexedField], MapVal[uint64,*indexedField], MapCard[uint64,*indexedField], Elem[*indexedField])
 //@ modifies objIndex.i@s.ObjectIndex, objIndex.ver@s.ObjectIndex, MapDom[string,uint64]@s.ObjectIndex.uuids, MapVal[string,uint64]@s.ObjectIndex.uuids, MapCard[string,uint64]@s.ObjectIndex.uuids, MapDom[uint64,string]@s.ObjectIndex.ObjectIds, MapVal[uint64,string]@s.ObjectIndex.ObjectIds, MapCard[uint64,string]@s.ObjectIndex.ObjectIds, fieldIndex.Index, fieldIndex.pos, MapDom[uint64,*indexedField], MapVal[uint64,*indexedField], MapCard[uint64,*indexedField], Elem[*indexedField]
@@ -778,6 +789,7 @@ package sod
 //@ ensures [C02 dbu.fields-same] s.ObjectIndex.Fields == old(s.ObjectIndex.Fields) && s.ObjectIndex.uuids == old(s.ObjectIndex.uuids) && s.ObjectIndex.ObjectIds == old(s.ObjectIndex.ObjectIds) && forallk(f, string, has(s.ObjectIndex.Fields, f) == old(has(s.ObjectIndex.Fields, f)) && s.ObjectIndex.Fields[f] == old(s.ObjectIndex.Fields[f]))
 //@ ensures [C02 C20 dbu.others] forallk(f, string, imp(has(s.ObjectIndex.Fields, f), forallk(k, uint64, imp(!(known && k == id), s.ObjectIndex.Fields[f].objectIds[k] == old(s.ObjectIndex.Fields[f].objectIds[k])))))
 //@ ensures [C03 dbu.wf] wfIndex(s.ObjectIndex)
+//@ ensures [C20 dbu.elems] elemsFramed(s.ObjectIndex)
 //@ ensures [C04 dbu.version] s.ObjectIndex.ver == old(s.ObjectIndex.ver) + ite(known, 1, 0) && s.ObjectIndex.otype == old(s.ObjectIndex.otype)
 //@ ensures [C07 dbu.footprint] s.ObjectIndex.base == old(s.ObjectIndex.base) && preservedBelow(s.ObjectIndex.base, objIndex.ver, MapDom[string,uint64], MapVal[string,uint64], MapCard[string,uint64], MapDom[uint64,string], MapVal[uint64,string], MapCard[uint64,string], fieldIndex.Index, fieldIndex.pos, MapDom[uint64,*indexedField], MapVal[uint64,*indexedField], MapCard[uint64,*indexedField], Elem[*indexedField])
 //@ modifies objIndex.ver@s.ObjectIndex, MapDom[string,uint64]@s.ObjectIndex.uuids, MapVal[string,uint64]@s.ObjectIndex.uuids, MapCard[string,uint64]@s.ObjectIndex.uuids, MapDom[uint64,string]@s.ObjectIndex.ObjectIds, MapVal[uint64,string]@s.ObjectIndex.ObjectIds, MapCard[uint64,string]@s.ObjectIndex.ObjectIds, fieldIndex.Index, fieldIndex.pos, MapDom[uint64,*indexedField], MapVal[uint64,*indexedField], MapCard[uint64,*indexedField], Elem[*indexedField]
@@ -794,6 +806,7 @@ package sod
 //@ ensures [C02 dbu.fields-same] s.ObjectIndex.Fields == old(s.ObjectIndex.Fields) && s.ObjectIndex.uuids == old(s.ObjectIndex.uuids) && s.ObjectIndex.ObjectIds == old(s.ObjectIndex.ObjectIds) && forallk(f, string, has(s.ObjectIndex.Fields, f) == old(has(s.ObjectIndex.Fields, f)) && s.ObjectIndex.Fields[f] == old(s.ObjectIndex.Fields[f]))
 //@ ensures [C02 C20 dbu.others] forallk(f, string, imp(has(s.ObjectIndex.Fields, f), forallk(k, uint64, imp(!(known && k == id), s.ObjectIndex.Fields[f].objectIds[k] == old(s.ObjectIndex.Fields[f].objectIds[k])))))
 //@ ensures [C03 dbu.wf] wfIndex(s.ObjectIndex)
+//@ ensures [C20 dbu.elems] elemsFramed(s.ObjectIndex)
 //@ ensures [C04 dbu.version] s.ObjectIndex.ver == old(s.ObjectIndex.ver) + ite(known, 1, 0) && s.ObjectIndex.otype == old(s.ObjectIndex.otype)
 //@ ensures [C07 dbu.footprint] s.ObjectIndex.base == old(s.ObjectIndex.base) && preservedBelow(s.ObjectIndex.base, objIndex.ver, MapDom[string,uint64], MapVal[string,uint64], MapCard[string,uint64], MapDom[uint64,string], MapVal[uint64,string], MapCard[uint64,string], fieldIndex.Index, fieldIndex.pos, MapDom[uint64,*indexedField], MapVal[uint64,*indexedField], MapCard[uint64,*indexedField], Elem[*indexedField])
 //@ modifies objIndex.ver@s.ObjectIndex, MapDom[string,uint64]@s.ObjectIndex.uuids, MapVal[string,uint64]@s.ObjectIndex.uuids, MapCard[string,uint64]@s.ObjectIndex.uuids, MapDom[uint64,string]@s.ObjectIndex.ObjectIds, MapVal[uint64,string]@s.ObjectIndex.ObjectIds, MapCard[uint64,string]@s.ObjectIndex.ObjectIds, fieldIndex.Index, fieldIndex.pos, MapDom[uint64,*indexedField], MapVal[uint64,*indexedField], MapCard[uint64,*indexedField], Elem[*indexedField]
@@ -890,6 +903,7 @@ package sod
 //@ callhint (*DB).commit [C01 own-entry] has(idx.uuids, o.uuid) && value(db, s, o.uuid) == o.content && forallk(f, string, imp(has(idx.Fields, f), idx.Fields[f].objectIds[idx.uuids[o.uuid]].Value == norm(proj(o.content, f))))
 //@ callhint (*DB).commit [C01 coherent-before-commit] collsOK(db)
 //@ ensures [C01 iou.wf-base] wfDBbase(db)
+//@ ensures [C20 iou.elems] elemsFramed(idx)
 //@ ensures [C01 iou.wf] imp(!isStorage(err), collsOK(db))
 //@ ensures [C14 iou.clones-fresh] forallk(t, string, forallk(w, string, imp(has(db.cache.m, t) && has(db.cache.m[t].m, w), fresh(db.cache.m[t].m[w]) || (old(has(db.cache.m, t) && has(db.cache.m[t].m, w)) && db.cache.m[t].m[w] == old(db.cache.m[t].m[w]))) && imp(has(db.asyncw.m, t) && has(db.asyncw.m[t].m, w), fresh(db.asyncw.m[t].m[w]) || (old(has(db.asyncw.m, t) && has(db.asyncw.m[t].m, w)) && db.asyncw.m[t].m[w] == old(db.asyncw.m[t].m[w])))))
 //@ ensures [C15 iou.stage] o.stage == 3 && o.content == old(o.content)
@@ -914,6 +928,7 @@ package sod
 //@ ensures [C01 del.others] imp(old(has(db.schemas, T)), forallk(w, string, imp(w != u, has(db.schemas[T].ObjectIndex.uuids, w) == old(has(db.schemas[T].ObjectIndex.uuids, w)) && value(db, db.schemas[T], w) == old(value(db, db.schemas[T], w)))))
 //@ ensures [C05 del.storage-detectable] imp(isStorage(err) && old(has(db.schemas, T)) && db.schemas[T].coherent, !collK2(db, db.schemas[T]) || wfColl(db, db.schemas[T]))
 //@ ensures [C01 del.wf-base] wfDBbase(db)
+//@ ensures [C20 del.elems] elemsFramedDB(db, T)
 //@ ensures [C01 del.wf] imp(!isStorage(err), collsOK(db))
 //@ ensures [C01 del.table] db.schemas == old(db.schemas) && forallk(t, string, imp(t != T, has(db.schemas, t) == old(has(db.schemas, t)) && db.schemas[t] == old(db.schemas[t]))) && imp(old(has(db.schemas, T)), has(db.schemas, T) && db.schemas[T] == old(db.schemas[T]) && db.schemas[T].ObjectIndex == old(db.schemas[T].ObjectIndex) && db.schemas[T].coherent == old(db.schemas[T].coherent))
 //@ modifies Ghost.FSk, Async.routineStarted, MapDom[string,*Schema]@db.schemas, MapVal[string,*Schema]@db.schemas, MapCard[string,*Schema]@db.schemas, MapDom[string,Object], MapCard[string,Object], objIndex.ver, MapDom[string,uint64], MapVal[string,uint64], MapCard[string,uint64], MapDom[uint64,string], MapVal[uint64,string], MapCard[uint64,string], fieldIndex.Index, fieldIndex.pos, MapDom[uint64,*indexedField], MapVal[uint64,*indexedField], MapCard[uint64,*indexedField], Elem[*indexedField]
@@ -1030,6 +1045,7 @@ package sod
 //@ assume [coherent] forallk(t, string, imp(has(db.schemas, t), db.schemas[t].coherent))
 //@ ghost u string := o.uuid
 //@ ensures [C08 one-section] ACQ_H == old(ACQ_H) + 1
+//@ ensures [C20 IOU.elems] elemsFramedDB(db, stypeOf(dyntype(o)))
 //@ ensures [C01 IOU.stored] imp(err == nil, has(db.schemas, T) && has(db.schemas[T].ObjectIndex.uuids, u) && value(db, db.schemas[T], u) == o.content && u != "" && imp(u0 != "", u == u0))
 //@ ensures [C15 IOU.hooks] imp(err == nil, o.stage == 3)
 //@ ensures [C01 IOU.others] imp(err == nil && old(has(db.schemas, T)), forallk(w, string, imp(w != u, has(db.schemas[T].ObjectIndex.uuids, w) == old(has(db.schemas[T].ObjectIndex.uuids, w)) && value(db, db.schemas[T], w) == old(value(db, db.schemas[T], w)))))
@@ -1050,6 +1066,7 @@ package sod
 //@ assume [single-collection] forallk(t, string, imp(has(db.schemas, t), t == T))
 //@ assume [coherent] forallk(t, string, imp(has(db.schemas, t), db.schemas[t].coherent))
 //@ ensures [C08 one-section] ACQ_H == old(ACQ_H) + 1
+//@ ensures [C20 Del.elems] elemsFramedDB(db, T)
 //@ ensures [C01 Del.gone] imp(lastErr == nil && old(has(db.schemas, T)), !has(db.schemas[T].ObjectIndex.uuids, u) && !cached(db, db.schemas[T], u) && !pend(db, db.schemas[T], u) && FSk[opath(db, db.schemas[T], u)] == 0)
 //@ ensures [C01 Del.others] imp(old(has(db.schemas, T)), forallk(w, string, imp(w != u, has(db.schemas[T].ObjectIndex.uuids, w) == old(has(db.schemas[T].ObjectIndex.uuids, w)) && value(db, db.schemas[T], w) == old(value(db, db.schemas[T], w)))))
 //@ ensures [C04 Del.committed] imp(lastErr == nil && has(db.schemas, T), committed(db, db.schemas[T]))
@@ -1169,6 +1186,7 @@ package sod
 //@ ensures [C01 it.wf] imp(s.err == nil, wfDBbase(db) && imp(old(collsOK(db)), collsOK(db)))
 //@ ensures [C17 it.readonly] FSk == old(FSk) && FSc == old(FSc)
 //@ ensures [C11 it.coherent] imp(err == nil && !old(has(db.schemas, T)), db.schemas[T].coherent)
+//@ ensures [C20 it.base] imp(s.err == nil && !old(has(db.schemas, T)) && has(db.schemas, T), db.schemas[T].ObjectIndex.base >= old(allocmark()))
 //@ ensures [C01 it.others] imp(s.err == nil, db.schemas == old(db.schemas) && forallk(t, string, imp(t != T, has(db.schemas, t) == old(has(db.schemas, t)) && db.schemas[t] == old(db.schemas[t]))) && imp(old(has(db.schemas, T)), has(db.schemas, T) && db.schemas[T] == old(db.schemas[T])))
 //@ loop 1 invariant [bounds] (-1 <= rangeindex && rangeindex < len(s.fields)) || (rangeindex == -1 && len(s.fields) == 0)
 //@ loop 1 invariant [it] it != nil && fresh(it) && it.db == db && it.i == 0 && !it.reverse && it.tdyn == dyntype(s.object) && len(it.uuids) == rangeindex + 1 && fresh(arr(it.uuids))
@@ -1274,6 +1292,7 @@ package sod
 //@ ensures [C01 iter.complete] imp(err == nil, forallk(u, string, imp(has(db.schemas[T].ObjectIndex.uuids, u), 0 <= w[u] && w[u] < len(it.uuids) && it.uuids[w[u]] == u)))
 //@ ensures [C01 iter.wf] wfDBbase(db) && imp(old(collsOK(db)), collsOK(db))
 //@ ensures [C11 iter.coherent] imp(err == nil && !old(has(db.schemas, T)), db.schemas[T].coherent)
+//@ ensures [C20 iter.base] imp(!old(has(db.schemas, T)) && has(db.schemas, T), db.schemas[T].ObjectIndex.base >= old(allocmark()))
 //@ ensures [C17 iter.readonly] FSk == old(FSk) && FSc == old(FSc)
 //@ ensures [C01 iter.others] db.schemas == old(db.schemas) && forallk(t, string, imp(t != T, has(db.schemas, t) == old(has(db.schemas, t)) && db.schemas[t] == old(db.schemas[t]))) && imp(old(has(db.schemas, T)), has(db.schemas, T) && db.schemas[T] == old(db.schemas[T]))
 //@ loop 1 ghost w garray[string]int
@@ -1409,6 +1428,7 @@ package sod
 //@ assume [id-room] forallk(t, string, imp(has(db.schemas, t), db.schemas[t].ObjectIndex.i + len(objects) < 18446744073709551615))
 //@ assume [coherent] forallk(t, string, imp(has(db.schemas, t), db.schemas[t].coherent))
 //@ ensures [C08 one-section] ACQ_H == old(ACQ_H) + 1
+//@ ensures [C20 many.elems] imp(len(objects) > 0, elemsFramedDB(db, T))
 //@ ensures [C07 many.count-range] 0 <= n && n <= len(objects)
 //@ ensures [C07 many.success] imp(err == nil, n == len(objects))
 //@ ensures [C07 many.empty] imp(len(objects) == 0, err == nil && FSk == old(FSk) && FSc == old(FSc))
@@ -1441,6 +1461,7 @@ package sod
 //@ loop 2 invariant [wf] wfDB(db)
 //@ loop 2 invariant [objects] forall(k, 0, len(objects), objects[k] == old(objects[k]) && callerOwned(db, objects[k]) && objects[k].stage == 3 && dyntype(objects[k]) == schema.ObjectIndex.otype && objects[k] != nil)
 //@ loop 2 invariant [views] imp(rangeindex == -1 && old(has(db.schemas, T)), viewsSame(db, schema))
+//@ loop 2 invariant [elems] elemsFramedDB(db, T)
 //@ modifies Ghost.ACQ_H, Object.content, Object.stage, Object.uuid, Ghost.FSk, Ghost.FSc, Async.routineStarted, MapDom[string,*Schema]@db.schemas, MapVal[string,*Schema]@db.schemas, MapCard[string,*Schema]@db.schemas, MapDom[string,*objectMap], MapVal[string,*objectMap], MapCard[string,*objectMap], MapDom[string,Object], MapVal[string,Object], MapCard[string,Object], objIndex.i, objIndex.ver, MapDom[string,uint64], MapVal[string,uint64], MapCard[string,uint64], MapDom[uint64,string], MapVal[uint64,string], MapCard[uint64,string], fieldIndex.Index, fieldIndex.pos, MapDom[uint64,*indexedField], MapVal[uint64,*indexedField], MapCard[uint64,*indexedField], Elem[*indexedField]
 //@ allocates Async.Enable, Async.Threshold, Async.Timeout, Elem[interface{}], Elem[string], Elem[uint8], MapCard[string,*fieldIndex], MapDom[string,*fieldIndex], MapVal[string,*fieldIndex], Schema.AsyncWrites, Schema.Cache, Schema.Compress, Schema.Extension, Schema.Fields, Schema.ObjectIndex, Schema.coherent, Schema.db, Schema.object, Schema.transformers, fieldIndex.Cast, fieldIndex.Constraints.Index, fieldIndex.Constraints.Lower, fieldIndex.Constraints.Unique, fieldIndex.Constraints.Upper, fieldIndex.Name, fieldIndex.nameSplit, fieldIndex.objectIds, indexedField.ObjectId, indexedField.Value, objIndex.Fields, objIndex.ObjectIds, objIndex.base, objIndex.otype, objIndex.uuids, objectMap.RWMutex, objectMap.m
 //@ allocates Constraints.Index, Constraints.Lower, Constraints.Unique, Constraints.Upper
@@ -1933,6 +1954,7 @@ package sod
 //@ ensures [C01 delobj.ids] forallk(id, uint64, imp(has(idx.ObjectIds, id), old(has(idx.ObjectIds, id)) && idx.ObjectIds[id] == old(idx.ObjectIds[id]))) && forallk(w, string, imp(has(idx.uuids, w), idx.uuids[w] == old(idx.uuids[w])))
 //@ ensures [C04 delobj.committed] imp(err == nil && !asyncOn(sch), committed(db, sch))
 //@ ensures [C01 delobj.wf-base] wfDBbase(db) && has(db.schemas, T) && db.schemas[T] == sch && sch.ObjectIndex == idx
+//@ ensures [C20 delobj.elems] elemsFramed(idx)
 //@ ensures [C01 delobj.wf] imp(!isStorage(err), collsOK(db))
 //@ loop 1 invariant [frame] preserved(Elem[string], iterator.uuids, iterator.reverse, iterator.db, iterator.tdyn, DB.schemas, DB.cache, DB.asyncw, DB.root, Schema.ObjectIndex, Schema.coherent, objIndex.uuids, objIndex.ObjectIds, objIndex.Fields) && preservedAt(MapDom[string,*Schema], db.schemas) && preservedAt(MapVal[string,*Schema], db.schemas) && preservedAt(MapCard[string,*Schema], db.schemas) && preservedAt(iterator.i, from)
 //@ loop 1 invariant [locals] H == 2 && SL == 0 && HS == 0 && HM == 0
@@ -1944,6 +1966,7 @@ package sod
 //@ loop 1 invariant [gone] imp(!rev && i0 == 0, forall(k, 0, ite(err == ErrEOI, from.i, from.i - 1), k >= len(us) || !has(idx.uuids, us[k])))
 //@ loop 1 invariant [only-listed] forallk(u, string, imp(old(has(idx.uuids, u)) && !has(idx.uuids, u), exists(k, 0, len(us), us[k] == u)))
 //@ loop 1 invariant [ids] forallk(id, uint64, imp(has(idx.ObjectIds, id), old(has(idx.ObjectIds, id)) && idx.ObjectIds[id] == old(idx.ObjectIds[id]))) && forallk(w, string, imp(has(idx.uuids, w), idx.uuids[w] == old(idx.uuids[w])))
+//@ loop 1 invariant [elems] elemsFramed(idx)
 //@ loop 1 invariant [none-added] forallk(u, string, imp(has(idx.uuids, u), old(has(idx.uuids, u)) && value(db, sch, u) == old(value(db, sch, u))))
 //@ modifies Ghost.FSk, Ghost.FSc, iterator.i@from, Async.routineStarted, MapDom[string,*Schema]@db.schemas, MapVal[string,*Schema]@db.schemas, MapCard[string,*Schema]@db.schemas, MapDom[string,*objectMap], MapVal[string,*objectMap], MapCard[string,*objectMap], MapDom[string,Object], MapVal[string,Object], MapCard[string,Object], objIndex.ver, MapDom[string,uint64], MapVal[string,uint64], MapCard[string,uint64], MapDom[uint64,string], MapVal[uint64,string], MapCard[uint64,string], fieldIndex.Index, fieldIndex.pos, MapDom[uint64,*indexedField], MapVal[uint64,*indexedField], MapCard[uint64,*indexedField], Elem[*indexedField]
 //@ allocates Async.Enable, Async.Threshold, Async.Timeout, Elem[interface{}], Elem[string], Elem[uint8], MapCard[string,*fieldIndex], MapDom[string,*fieldIndex], MapVal[string,*fieldIndex], Object.content, Object.stage, Object.uuid, Schema.AsyncWrites, Schema.Cache, Schema.Compress, Schema.Extension, Schema.Fields, Schema.ObjectIndex, Schema.coherent, Schema.db, Schema.object, Schema.transformers, fieldIndex.Cast, fieldIndex.Constraints.Index, fieldIndex.Constraints.Lower, fieldIndex.Constraints.Unique, fieldIndex.Constraints.Upper, fieldIndex.Name, fieldIndex.nameSplit, fieldIndex.objectIds, indexedField.ObjectId, indexedField.Value, objIndex.Fields, objIndex.ObjectIds, objIndex.i, objIndex.otype, objIndex.uuids, objectMap.RWMutex, objectMap.m
@@ -1965,6 +1988,7 @@ package sod
 //@ ensures [C01 DelObj.none-added] forallk(u, string, imp(has(idx.uuids, u), old(has(idx.uuids, u)) && value(db, sch, u) == old(value(db, sch, u))))
 //@ ensures [C04 DelObj.committed] imp(err == nil && !asyncOn(sch), committed(db, sch))
 //@ ensures [C01 DelObj.wf-base] wfDBbase(db)
+//@ ensures [C20 DelObj.elems] elemsFramed(idx)
 //@ ensures [C01 DelObj.wf] imp(!isStorage(err), collsOK(db))
 //@ modifies Ghost.ACQ_H, Ghost.FSk, Ghost.FSc, iterator.i@from, Async.routineStarted, MapDom[string,*Schema]@db.schemas, MapVal[string,*Schema]@db.schemas, MapCard[string,*Schema]@db.schemas, MapDom[string,*objectMap], MapVal[string,*objectMap], MapCard[string,*objectMap], MapDom[string,Object], MapVal[string,Object], MapCard[string,Object], objIndex.ver, MapDom[string,uint64], MapVal[string,uint64], MapCard[string,uint64], MapDom[uint64,string], MapVal[uint64,string], MapCard[uint64,string], fieldIndex.Index, fieldIndex.pos, MapDom[uint64,*indexedField], MapVal[uint64,*indexedField], MapCard[uint64,*indexedField], Elem[*indexedField]
 //@ allocates Async.Enable, Async.Threshold, Async.Timeout, Elem[interface{}], Elem[string], Elem[uint8], MapCard[string,*fieldIndex], MapDom[string,*fieldIndex], MapVal[string,*fieldIndex], Object.content, Object.stage, Object.uuid, Schema.AsyncWrites, Schema.Cache, Schema.Compress, Schema.Extension, Schema.Fields, Schema.ObjectIndex, Schema.coherent, Schema.db, Schema.object, Schema.transformers, fieldIndex.Cast, fieldIndex.Constraints.Index, fieldIndex.Constraints.Lower, fieldIndex.Constraints.Unique, fieldIndex.Constraints.Upper, fieldIndex.Name, fieldIndex.nameSplit, fieldIndex.objectIds, indexedField.ObjectId, indexedField.Value, objIndex.Fields, objIndex.ObjectIds, objIndex.i, objIndex.otype, objIndex.uuids, objectMap.RWMutex, objectMap.m
@@ -1977,6 +2001,7 @@ package sod
 //@ assume [single-collection] forallk(t, string, imp(has(db.schemas, t), t == T))
 //@ assume [coherent] forallk(t, string, imp(has(db.schemas, t), db.schemas[t].coherent))
 //@ ensures [C08 one-section] ACQ_H == old(ACQ_H) + 1 && lockFree()
+//@ ensures [C20 DeleteAll.elems] elemsFramedDB(db, T)
 //@ ensures [C01 DeleteAll.empty] imp(err == nil, has(db.schemas, T) && forallk(u, string, !has(db.schemas[T].ObjectIndex.uuids, u)))
 //@ ensures [C04 DeleteAll.committed] imp(err == nil && !asyncOn(db.schemas[T]), committed(db, db.schemas[T]))
 //@ ensures [C01 DeleteAll.wf-base] wfDBbase(db)
@@ -2021,6 +2046,7 @@ package sod
 //@ func (*Search).Delete
 //@ serves C01 C02 C04 C08 C09 C20
 //@ requires [wf] wfSearch(s) && imp(s.err == nil, wfDB(s.db) && distinctIds(s.fields))
+//@ requires [C20 separate] imp(s.err == nil, searchSeparate(s.db, stypeOf(dyntype(s.object)), s.fields))
 //@ requires [C09 lock-free] lockFree()
 //@ let db *DB := s.db
 //@ let T string := stypeOf(dyntype(s.object))
@@ -2029,6 +2055,11 @@ package sod
 //@ assume [single-collection] imp(s.err == nil, forallk(t, string, imp(has(db.schemas, t), t == T)))
 //@ assume [coherent] imp(s.err == nil, forallk(t, string, imp(has(db.schemas, t), db.schemas[t].coherent)))
 //@ ensures [C08 one-section] imp(e0 == nil, ACQ_H == old(ACQ_H) + 1) && imp(e0 != nil, ACQ_H == old(ACQ_H) && err == e0) && lockFree()
+//@ ensures [C20 SDelete.elems] imp(e0 == nil, elemsFramedDB(db, T))
+//@ callhint (*DB).deleteObjects [C20 separate-before-delete] searchSeparate(db, T, f0) && forall(k, 0, len(f0), allocated(f0[k]))
+//@ ensures [C20 SDelete.fields-kept] imp(e0 == nil, s.fields == f0 && forall(k, 0, len(f0), f0[k] == old(f0[k]) && f0[k].ObjectId == old(f0[k].ObjectId)))
+//@ ensures [C02 C20 SDelete.matched-gone] imp(e0 == nil && err == nil, has(db.schemas, T) && forall(k, 0, len(f0), !has(db.schemas[T].ObjectIndex.ObjectIds, f0[k].ObjectId)))
+//@ ensures [C02 C20 SDelete.only-matched] imp(e0 == nil && old(has(db.schemas, T)), forallk(u, string, imp(old(has(db.schemas[T].ObjectIndex.uuids, u)) && !has(db.schemas[T].ObjectIndex.uuids, u), exists(k, 0, len(f0), f0[k].ObjectId == old(db.schemas[T].ObjectIndex.uuids[u])))))
 //@ ensures [C04 SDelete.committed] imp(e0 == nil && err == nil && !asyncOn(db.schemas[T]), committed(db, db.schemas[T]))
 //@ ensures [C01 SDelete.wf-base] imp(e0 == nil, wfDBbase(db))
 //@ ensures [C01 SDelete.wf] imp(e0 == nil && !isStorage(err), collsOK(db))
